@@ -182,6 +182,7 @@ def full_run(tier, seed):
                 prog['built'] = False
                 continue
             prog['built'] = True
+            prog['exe'] = exe
             runs.append((idx, exe, seed, scen, ops, os.path.join(trdir, 't%03d.txt' % idx)))
         with cf.ThreadPoolExecutor(max_workers=V.JOBS) as ex:
             done = list(ex.map(_run, runs))
@@ -217,6 +218,44 @@ def full_run(tier, seed):
         json.dump(result, open(path + '.tmp', 'w'))
         os.replace(path + '.tmp', path)
         return result
+
+
+def search(pid, full, seed):
+    """A proof obligation or the correspondence broke but no oracle of `pid` rejected anything yet:
+    look harder for a concrete failing history — more seeds and longer scenarios on the programs whose
+    transcripts diverged (or on all programs when the break is on the Lean side)."""
+    progs = [full['programs'][d['program']] for d in full['divergences']] or full['programs']
+    progs = [p for p in progs if p.get('built') and p.get('exe') and os.path.exists(p['exe'])][:4]
+    found, tried = [], 0
+    stats = O.Stats()
+    trdir = os.path.join(V.CACHE, 'search_%d' % os.getpid())
+    os.makedirs(trdir, exist_ok=True)
+    for k, p in enumerate(progs):
+        for extra in range(1, 5):
+            out = os.path.join(trdir, 's%d_%d.txt' % (k, extra))
+            with open(out, 'wb') as f:
+                try:
+                    subprocess.run([p['exe'], str(seed * 1000 + extra), '60', '80'], stdout=f, stderr=subprocess.DEVNULL, timeout=600)
+                except subprocess.TimeoutExpired:
+                    pass
+            rej = {}
+            try:
+                O.judge_file(out, S.parse(p['shape']), p['config'], rej, stats, {})
+            except Exception:
+                pass
+            tried += 1
+            os.remove(out)
+            found += rej.get(pid, [])
+            if found:
+                break
+        if found:
+            break
+    try:
+        os.rmdir(trdir)
+    except OSError:
+        pass
+    return found, 'searched %d extra transcripts (%d operations) of %d programs with the oracle of %s' % (
+        tried, stats.d.get('ops', 0), len(progs), pid)
 
 
 def finding_matches(known, rej):
@@ -267,4 +306,5 @@ def run(pid, tier, seed):
     res['summary'] = 'programs=%d ops=%d oracle_checks=%d' % (len(progs), st.get('ops', 0), st.get('checks_' + pid, 0))
     res['search_note'] = ('oracle of %s evaluated on %d operations over %d generated programs' %
                           (pid, st.get('ops', 0), len(progs)))
+    res['full'] = full
     return res
